@@ -272,8 +272,9 @@ def h_corr(ctx, cfg):
     mm = ctx.mod("batchie.models.main")
     core = ctx.mod("batchie.core")
     nS, M = cfg["samples"], cfg["M"]
-    names = ["a", "a", "b", "c"][:M]
-    doses = [1.0, 2.0, 1.0, 1.0][:M]
+    # a named control at a positive dose: the screen's own ids (control = -1) differ from a fresh re-encoding
+    names = ["a", "ctl", "b", "c"][:M]
+    doses = [1.0, 1.0, 2.0, 1.0][:M]
     snames = ["s0", "s1", "s2"][:nS]
     rows = list(itertools.combinations(range(M), 2))[:max(nS, 2)]
     while len(rows) < nS:
@@ -283,7 +284,7 @@ def h_corr(ctx, cfg):
         treatment_doses=np.array([[doses[a], doses[b]] for a, b in rows], dtype=float),
         sample_names=np.array([snames[i % nS] for i in range(len(rows))], dtype=str),
         plate_names=np.array(["p"] * len(rows), dtype=str),
-        control_treatment_name="zz")
+        control_treatment_name="ctl")
     mi = screen.treatment_mapping[2].tolist()
     K = len(mi) * (len(mi) - 1) // 2
     table = {sid: [ctx.real("q%d_%d" % (sid, k)) for k in range(K)] for sid in range(nS)}
